@@ -475,10 +475,45 @@ def value_grid(thorough, seed):
 TIMES = [(0, 0, 0, 0), (12, 30, 15, 123456), (23, 59, 59, 999999), (13, 5, 9, 50)]
 
 
+FRACTION_TOKENS = ("S", "SS", "SSS", "SSSS", "SSSSS", "SSSSSS")
+
+
+def check_fraction(acc, pendulum, width, v):
+    """One fraction value of `width` digits: format() renders exactly those digits, from_format() reads them back."""
+    tok = FRACTION_TOKENS[width - 1]
+    us = v * 10 ** (6 - width)
+    digits = "%0*d" % (width, v)
+    x = pendulum.DateTime(2019, 7, 14, 16, 5, 9, us, tzinfo=pendulum.UTC)
+    case = {"kind": "frac", "width": width, "v": v}
+    acc.c["evaluations"] += 2
+    acc.c["transitions"] += 2
+    got = x.format(tok)
+    if got != digits:
+        acc.mismatch("token", f"{tok}/every-fraction", case, got, digits)
+    try:
+        r = pendulum.from_format(f"2019-07-14 16:05:09.{digits} +02:00", f"YYYY-MM-DD HH:mm:ss.{tok} Z")
+        back = [list(obs.fields(r)), obs.offset_s(r)]
+    except Exception as e:  # noqa: BLE001
+        back = f"raises {type(e).__name__}"
+    want = [[2019, 7, 14, 16, 5, 9, us], 7200]
+    if back != want:
+        acc.mismatch("from_format", f"{tok}/every-fraction", case, back, want)
+
+
 def run_shard(shard):
     import pendulum
     acc = core.Acc(ID)
     k = shard["kind"]
+    if k == "fractions":
+        w = shard["width"]
+        for v in range(shard["v0"], shard["v1"], shard["step"]):
+            check_fraction(acc, pendulum, w, v)
+        for v in shard.get("also", []):
+            check_fraction(acc, pendulum, w, v)
+        acc.c["states"] += 1
+        acc.c["nontrivial"] += (shard["v1"] - shard["v0"]) // shard["step"]
+        acc.sample({"fraction_width": w, "values": [shard["v0"], shard["v1"], shard["step"]]})
+        return acc.result()
     if k == "tokens":
         for z in shard["zones"]:
             for (y, m, d) in shard["dates"]:
@@ -588,6 +623,8 @@ def replay_case(case, acc):
         want = _ord_expected(case["tok"], nat, case["loc"])
         if got != want:
             acc.mismatch("token", f"{case['tok']}/ordinal-range", case, got, want)
+    elif k == "frac":
+        check_fraction(acc, pendulum, case["width"], case["v"])
     elif k == "xt":
         check_extra(acc, pendulum, case["z"], tuple(case["f"]))
     elif k == "rt":
@@ -619,6 +656,15 @@ def plan(tier, seed):
         shards.append({"kind": "hours", "zones": [z]})
     for month in range(1, 13):
         shards.append({"kind": "locales", "month": month})
+    # every fraction value of 1..5 digits, and of 6 digits every value (thorough) / a seed-rotated seventh plus the
+    # values below 2000 (quick), through format() and from_format()
+    for w in (1, 2, 3, 4):
+        shards.append({"kind": "fractions", "width": w, "v0": 0, "v1": 10 ** w, "step": 1})
+    for lo in range(0, 10 ** 5, 25000):
+        shards.append({"kind": "fractions", "width": 5, "v0": lo, "v1": lo + 25000, "step": 1})
+    for lo in range(0, 10 ** 6, 62500):
+        shards.append({"kind": "fractions", "width": 6, "v0": lo + (0 if thorough else seed % 7), "v1": lo + 62500,
+                       "step": 1 if thorough else 7, "also": list(range(0, 2000)) if lo == 0 and not thorough else []})
     return [({"ext": 1, "tz": "sys"}, shards)] + ([({"ext": 0, "tz": "sys"}, shards)] if thorough else [])
 
 
